@@ -134,9 +134,12 @@ def ensure_facts(fresh=False, log=sys.stderr):
             # keep at most 12 old fact sets
             root = os.path.join(CACHE, "facts")
             if os.path.isdir(root):
+                # least recently *used* first (a cache hit touches the set); never evict a set used in the last 30 minutes — another
+                # process may still be loading it (loading happens outside the lock)
                 olds = sorted((os.path.getmtime(os.path.join(root, x)), x) for x in os.listdir(root))
-                for _, x in olds[:-12]:
-                    shutil.rmtree(os.path.join(root, x), ignore_errors=True)
+                for m, x in olds[:-12]:
+                    if time.time() - m > 1800:
+                        shutil.rmtree(os.path.join(root, x), ignore_errors=True)
             tmp = d + ".tmp"
             if os.path.isdir(tmp):
                 shutil.rmtree(tmp)
@@ -147,6 +150,11 @@ def ensure_facts(fresh=False, log=sys.stderr):
                 fh.write("%f\n" % secs)
             info["cached"] = False
             info["extract_s"] = round(secs, 2)
+        else:
+            try:
+                os.utime(d, None)
+            except OSError:
+                pass
         return d, info
     finally:
         fcntl.flock(lock, fcntl.LOCK_UN)
